@@ -100,6 +100,12 @@ func (c07Prop) Generate(seed uint64, idx int, tier string) *Plan {
 			pl.File.N = r.Range(3, 12)
 		}
 	}
+	if r.P(1, 14) {
+		// blocks far larger than the reader's internal chunk size
+		pl.File = genBigFileSpec(r)
+		pl.Family = r.Pick([]string{"baseline", "baseline", "callback", "sync", "crc"})
+		pl.AllBits = false
+	}
 	switch pl.Family {
 	case "crc":
 		pl.File.Codec = "snappy"
